@@ -122,3 +122,58 @@ PROPS["C19"] = dict(
     assumptions=["callbacks that change config->key/alg are C02's routes; here the config is left untouched"],
     budget_s=dict(quick=600, thorough=2400),
 )
+
+# ---------------------------------------------------------------- C15
+PROPS["C15"] = dict(
+    level="model_checking",
+    technique="explicit-state BFS over set/get/del histories (dedup on the map's canonical JSON) on six real receivers, reference map advanced in lock-step",
+    level_text=("breadth-first search over all histories of 156 set/get/del operations (INT/STR/BOOL/JSON, with and without replace, "
+                "names a/b/empty/NULL, malformed and non-container JSON) up to depth 3 (quick) / 4 (thorough) on builder headers, "
+                "builder claims and the jwt_t handed to builder and checker callbacks; each history is replayed on a fresh real "
+                "object and every call's return code, value.error, returned value and the resulting whole-object dump are compared "
+                "with ref_map; states are merged on the canonical dump, which is all the API can read or write"),
+    level_note="ref_map = model_apply() in harness/seq.c (90 lines on jansson containers); merging on the dump is future-equivalent because the map is the only state these calls touch",
+    rule=("states = distinct canonical maps reached per receiver; transitions = state x operation (all executed on the real object by "
+          "replaying the state's shortest history); evaluations = individual API calls compared with the model; non-trivial = the "
+          "last operation changed the map"),
+    runs=lambda tier: [dict(harness="seq")],
+    bound=dict(quick="all histories of depth <= 3 over 156 operations, 6 receivers", thorough="until the frontier closes (all reachable maps of the alphabet; depth bound 12 not reached)"),
+    assumptions=["non-UTF-8 strings and names other than a, b, empty, NULL are outside the alphabet"],
+    budget_s=dict(quick=600, thorough=3000),
+)
+
+# ---------------------------------------------------------------- C13
+PROPS["C13"] = dict(
+    level="model_checking",
+    technique="exhaustive enumeration of all call histories up to depth D on one reused real object, no state merging, differential oracle against a fresh object",
+    level_text=("all histories of depth 4 (quick) / 5 (thorough) over 13 checker operations (verify of 11 token classes, error_clear, "
+                "clock advance) for four checker configurations, and of depth 5 / 6 over 13 builder operations (setkey good / "
+                "fails-at-signing / none / public, callbacks failing / mutating / none, generate, error_clear, clock, claim set/del); "
+                "after every verify/generate the result is compared with a freshly created, identically configured object at the "
+                "same clock.  States are deliberately not merged: merging by observable state would hide hidden state"),
+    level_note="the model is only the net configuration (last successful setkey/setcb/claim); every history is an implementation trace",
+    rule=("states = histories executed (no merging); transitions = verify/generate steps compared with a fresh object; non-trivial = "
+          "every executed history (each contains at least one compared step or is a prefix-closed member)"),
+    runs=lambda tier: [dict(harness="seq", args=["--param", 0])] + ([dict(harness="seq", args=["--param", 1])] if tier == "thorough" else []),
+    bound=dict(quick="checker depth 4 (4 configs x 28561 histories), builder depth 5", thorough="checker depth 5 (4 x 371293), builder depth 6; both providers"),
+    assumptions=["ECDSA verification is the only randomised-signature path (tokens pre-signed by the reference with a seeded RNG)"],
+    budget_s=dict(quick=600, thorough=3000),
+)
+
+# ---------------------------------------------------------------- C14
+PROPS["C14"] = dict(
+    level="exploration",
+    technique="exhaustive enumeration of a failure-cause catalogue x depth-2 call histories (with/without error_clear) on real objects; contract predicate checked after every call",
+    level_text=("every catalogued failure cause reachable from outside (41 token classes x 14 checker configurations; 14 builder "
+                "configurations; every JWK defect of the C07 single-deviation matrix; every header/claim call of the C15 alphabet at "
+                "depth 2) is run on a fresh object and after every other cause on the same object, with and without error_clear; "
+                "after each call the contract (return value <=> error flag, non-empty message on failure, clean state on success, "
+                "return code == value.error) is checked"),
+    level_note="the predicate is the statement itself; no reference model is needed beyond the flag/return relation",
+    rule=("cases = (configuration, first cause or fresh, clear?, second cause); evaluations = calls judged; non-trivial = every "
+          "executed history (distinct by descriptor); both failing and succeeding calls occur (counters)"),
+    runs=lambda tier: [dict(harness="seq", args=["--param", 0]), dict(harness="seq", args=["--param", 1])],
+    bound=dict(quick="all ordered pairs of causes per configuration", thorough="same"),
+    assumptions=["causes inside the crypto libraries (e.g. provider-internal allocation failure) are not reachable from outside and not catalogued"],
+    budget_s=dict(quick=600, thorough=1200),
+)
